@@ -292,3 +292,45 @@ def hit_is_index_of(r, cond):
     if m.group(2):
         return S.fstr(r0).replace("(", "").replace(")", "") in ("item@bb%s.0" % m.group(1),)
     return r0 == ("sym", "index@bb" + m.group(1))
+
+
+
+def ordering_of(conds, is_a, is_b):
+    """Set of orderings {L,E,G} of (a ? b) consistent with the comparisons a path assumed, where a / b are the operands
+    accepted by the predicates is_a / is_b (any of <, <=, >, >=, ==, !=, cmp + match, in either operand order)."""
+    from .kernel import OUT2SET, FLIP, binop_set
+    oset = {"L", "E", "G"}
+    for c, o in conds:
+        a_ = b_ = None
+        cs = None
+        if c[0] == "discr" and c[1][0] == "cmp" and not isinstance(o, tuple):
+            a_, b_ = c[1][1], c[1][2]
+            cs = OUT2SET.get(dict((dv, n) for n, dv in c[2]).get(o))
+        elif c[0] == "binop" and c[1] in ("Lt", "Le", "Gt", "Ge", "Eq", "Ne") and isinstance(o, bool):
+            a_, b_ = c[2], c[3]
+            cs = binop_set(c[1], o)
+        if a_ is None or cs is None:
+            continue
+        if is_a(a_) and is_b(b_):
+            oset &= cs
+        elif is_a(b_) and is_b(a_):
+            oset &= {FLIP[x] for x in cs}
+    return oset
+
+
+
+def cond_variant(c, o):
+    """(term, variant name) a branch condition establishes — `if let` / `match` (discriminant switch), is_some()/is_none(),
+    or an assumption made by the engine when it analyses Option/Result methods — else None."""
+    if c[0] == "isvar":
+        if o is True:
+            return (c[1], c[2])
+        other = {"None": "Some", "Some": "None", "Ok": "Err", "Err": "Ok"}.get(c[2])
+        return (c[1], other) if other else None
+    if c[0] == "discr" and not isinstance(o, tuple):
+        nm = dict((dv, n) for n, dv in c[2]).get(o)
+        return (c[1], nm) if nm else None
+    if c[0] == "discr" and isinstance(o, tuple) and o[0] == "otherwise":
+        rest = [n for n, dv in c[2] if dv not in o[1]]
+        return (c[1], rest[0]) if len(rest) == 1 else None
+    return None
